@@ -235,6 +235,30 @@ def tensor_sm_cases(ctx, n):
     return len(exprs), bad, samples
 
 
+def tmp_counter_cases(ctx, n):
+    """T-eq Model/TmpCounter.v vs teaal.trans.utils.TransUtils.next_tmp / curr_tmp on random request sequences"""
+    from teaal.trans.utils import TransUtils
+    rng = ctx.rng
+    exprs, expect = [], []
+    for _ in range(n):
+        tu = TransUtils(None)
+        ops, outs = [], []
+        for _ in range(rng.randint(0, 14)):
+            if rng.random() < 0.55:
+                ops.append("TNext")
+                outs.append(tu.next_tmp())
+            else:
+                ops.append("TCurr")
+                try:
+                    outs.append(tu.curr_tmp())
+                except ValueError:
+                    outs.append("ERR")
+        exprs.append("(show_tmp_run %s)" % clist(ops))
+        expect.append(",".join(outs))
+    res = vlib.coq_eval_lines("c05tmp", ["TV.Model.Show", "TV.Model.TmpCounter"], "", exprs)
+    return len(exprs), [(e, g, r) for e, g, r in zip(exprs, expect, res) if g != r]
+
+
 def run(ctx):
     rng = ctx.rng
     n = 120 if ctx.quick() else 1200
@@ -308,10 +332,14 @@ def run(ctx):
     for e, g, r in sm_bad[:5]:
         ctx.violation({"kind": "tensor-sm-correspondence"}, "teaal.ir.tensor.Tensor and Model/TensorSM.v disagree: code %s model %s" % (g, r),
                       {"case": e, "code": g, "model": r, "correspondence": "T-eq Model/TensorSM.v vs teaal.ir.tensor.Tensor"}, no_input=True)
+    ntmp, tmp_bad = tmp_counter_cases(ctx, 200 if ctx.quick() else 2000)
+    for e, g, r in tmp_bad[:5]:
+        ctx.violation({"kind": "tmp-counter-correspondence"}, "TransUtils.next_tmp/curr_tmp and Model/TmpCounter.v disagree: code %s model %s" % (g, r),
+                      {"case": e, "code": g, "model": r, "correspondence": "T-eq Model/TmpCounter.v vs teaal.trans.utils.TransUtils"}, no_input=True)
     distinct = len(set(c.text for c in cases))
     ctx.coverage.update({
-        "programs": distinct, "executions": len(cases), "disagreements_checked": bad + text_bad + len(sm_bad), "evaluations": len(cases) + nsm,
-        "distinct_nontrivial": distinct, "population": stats, "tensor_sm_sequences": nsm,
+        "programs": distinct, "executions": len(cases), "disagreements_checked": bad + text_bad + len(sm_bad) + len(tmp_bad), "evaluations": len(cases) + nsm + ntmp,
+        "distinct_nontrivial": distinct, "population": stats, "tensor_sm_sequences": nsm, "tmp_counter_sequences": ntmp,
         "rule": "mixed cascades (tools/specgen_mixed.py: one pool of 3-5 rank names out of 17 per cascade, every Einsum plain or with index arithmetic I[a*q], I[a*q+b*s], "
                 "per-Einsum shape(+follow)/occupancy/flatten partitioning and spacetimes; cascade text vs concatenated stand-alone texts, rejection only if an Einsum is rejected alone; "
                 "execution outside the C04 defect classes) + "
@@ -319,7 +347,7 @@ def run(ctx):
                 "random rank orders of all tensors incl. intermediates; section-vs-standalone text for every Einsum of every cascade; 2 executions per cascade; "
                 "400/4000 random Tensor operation sequences",
         "samples": [{"yaml": cases[0].spec.yaml, "extents": cases[0].extents, "result": cases[0].raw}] + sm_samples if cases else sm_samples,
-        "trusted_base": ["Coq 8.16.1 kernel + VM", "Model/Rt.v + Model/Interp.v", "tools/py2coq.py", "Model/Einsum.v denote_all", "Model/TensorSM.v tied by T-eq"],
+        "trusted_base": ["Coq 8.16.1 kernel + VM", "Model/Rt.v + Model/Interp.v", "tools/py2coq.py", "Model/Einsum.v denote_all", "Model/TensorSM.v tied by T-eq", "Model/TmpCounter.v tied by T-eq (names as indices; \"tmp\" + decimal spelling compared as text)"],
     })
 
 
